@@ -45,6 +45,7 @@ PROPS = {
                       "round_instant, the harness and diff. The f64 instantiation of the rounder is not covered by this check.",
         "lean_modules": ["TemporalModel.Props.C07"],
         "suites": ["c07"],
+        "spec_ops": {"pt_round": "pt_round_spec"},
         "why_difference_is_violation":
             "Theorem C07_round_eq_spec proves model = RoundNumberToIncrement (roundSpec) for all inputs; "
             "the model output on this line is therefore the unique value the property allows, and the "
@@ -122,5 +123,26 @@ PROPS = {
         "why_difference_is_violation":
             "C04_* theorems prove the model implements Temporal's AddISODate/DifferenceISODate and the inverse law; the implementation "
             "returned a different date/duration/error kind (or, for pd_law_inv, broke start.add(start.until(end)) = end) on this input.",
+    },
+    "C05": {
+        "lean_modules": ["TemporalModel.Props.C05"],
+        "suites": ["c05"],
+        "spec_ops": {"pdt_round": "pdt_round_spec"},
+        "level_text": "Proof: C05_time_add_exact (AddTime is nanosecond-exact with carry into whole days), C05_add_compose (AddDateTime "
+                      "= exact time part + C04 date part + limit check -> RangeError), C05_carry_no_wrap / C05_add_huge_time, "
+                      "C05_round_hour (RoundTime to hours = RoundNumberToIncrement from midnight with carry), C05_round_shift (rounding "
+                      "commutes with whole increments: the law behind the sub-hour units) and the kernel-decided counterexample "
+                      "C05_round_halfEven_counterexample (known finding). Tie: add/subtract/until/since/round through the public "
+                      "PlainDateTime API (opposite time-of-day order, times within one increment of midnight, month-end carries, "
+                      "limits); the inverse law start.add(start.until(end,U)) is computed on both sides; round is additionally "
+                      "compared with the property-level oracle 'multiple counted from midnight' (pdt_round_spec).",
+        "level_note": "Trusted: Lean kernel (+propext, Classical.choice, Quot.sound); hand model of IsoDateTime add/diff/round; the "
+                      "until/since results (sign-uniformity, |time| < 1 day, the inverse law for fields below 2^53) are compared "
+                      "line by line against the model and probed on the implementation, not proved; rounding until/since (smallestUnit "
+                      "/ increment) is C08's machinery. Known finding C05-halfeven-container-parity is excluded by its region only.",
+        "why_difference_is_violation":
+            "C05_* theorems prove the model composes exact time arithmetic with C04's date arithmetic and rounds from midnight; the "
+            "implementation returned a different value/error kind on this input (for spec-disagreement: a different multiple than "
+            "the one the rounding mode prescribes counted from midnight).",
     },
 }
